@@ -15,7 +15,7 @@ from ..ref import formula as F
 
 ID = 'C08'
 LEVEL = 'exploration'
-BUDGET_S = {'quick': 150, 'thorough': 1500}
+BUDGET_S = {'quick': 300, 'thorough': 1500}
 RULE = ('stateful: a history = generated workbook + override set + sequence of up to 30 query calls; every returned value is compared '
         'with the value table (computed once with one fresh Executor per cell, cross-checked against the reference evaluator); '
         'get_sheet must have exactly last_row x last_column entries for the used range extended by the overrides; sheet sizes are '
